@@ -13,7 +13,8 @@ Harness harness/drun.cpp, driver ocaml/driver_run.ml (extraction coq/Extract_run
    exported circuits only).  The model (run_passes with an empty shift oracle) receives the LEGALIZED circuit (what the first
    callback saw).  Compared: state after construction, the state at EVERY callback, and the final state.
 
-Library: run_closed(ctx, count, seed) -> dict.  Stand-alone: python3 -m checks.c02_run [seed] [count]."""
+Library: run_closed(ctx, count, seed[, lines=replay lines]) -> dict (keys: mismatch / driver_fail / crash / check_fail = broken
+correspondence; overflow_throws = real violation of C02 with its input, finding F-run-1 of design/C02_run.md; counters).  Stand-alone: python3 -m checks.c02_run [seed] [count]."""
 import sys
 from tools import common
 from checks import legal_common as lc
@@ -33,6 +34,16 @@ def split_case(line):
 
 norm = lambda x: " ".join(x.split())
 
+# the extracted model holds cut-offs as unary naturals: a cut-off above CAP is replaced by CAP on the MODEL side only (CAP exceeds
+# the length of every row and the number of rows of the generated circuits, beyond which the C++ loops read the cut-off only through
+# min / count < n); the C++ receives the original value (INT_MAX included)
+CAP = 5000
+HUGE = 2147483647 - 4096
+
+
+def cap(tok):
+    return str(CAP) if int(tok) > CAP else tok
+
 
 def seg_fields(seg):
     """'TAG xv yv ;placement ; rows [; check]' -> (tag, values, placement, rows, check)"""
@@ -41,25 +52,33 @@ def seg_fields(seg):
     return head[0], " ".join(head[1:]), parts[1] if len(parts) > 1 else "", parts[2] if len(parts) > 2 else "", parts[3] if len(parts) > 3 else ""
 
 
+# the circuit of Example c02_run_nonvacuous / c05_run_nonvacuous (coq/Properties_C02_run.v: rows N / FS, cell 0 polarised NW, 2 passes,
+# no shift pass, reordering windows of 3 cells): the numbers of the Example (Circuit::hpwl 19 -> 12 -> 12 -> 9 -> 9) are the C++'s
+EXAMPLE = ("DW 2 0 12 0 2 0 0 12 2 4 5 6 0 0 2 2 0 3 0 1 4 0 2 2 0 0 0 1 1 2 2 2 0 0 0 1 6 2 3 2 0 0 0 1 11 3 0 0 0 0 1 0 0 0 0 0 0 0 1 0 "
+           "3 2 1 0 0 4 0 0 2 2 3 0 0 5 0 0 2 2 0 1 1 2 0 0 2 2 2 2 3 0 1 3 ")
+EXAMPLE_VALUES = ["13 6", "10 2", "10 2", "7 2", "7 2", "7 2"]     # xtopo_.value() ytopo_.value() at INIT, the 4 callbacks, FINAL
+
 _cache = {}
 
 
-def run_closed(ctx, count, seed, modes=(0, 16)):
-    key = (count, seed, tuple(modes))
-    if key in _cache:
+def run_closed(ctx, count, seed, modes=(0, 16), lines=None):
+    """lines: explicit DR / DW case lines (replay); otherwise corpus + Example + `count` generated cases"""
+    key = (count, seed, tuple(modes)) if lines is None else None
+    if key is not None and key in _cache:
         return _cache[key]
     ctx = ctx if ctx is not None else _Ctx()
     harness = common.build_harness("drun")
     driver = common.build_driver("run")
-    lines = common.corpus("C02", ("DR ", "DW "))
-    for m in modes:
-        lines += common.harness_gen(harness, ["rand", seed + 300 + m, count // len(modes), m])
+    if lines is None:
+        lines = common.corpus("C02", ("DR ", "DW ")) + [EXAMPLE + "0", EXAMPLE + "1"]
+        for m in modes:
+            lines += common.harness_gen(harness, ["rand", seed + 300 + m, count // len(modes), m])
     impl, _, _ = common.run_both([harness, "run"], None, lines, chunk=200, timeout=600)
     res = {"cases": len(lines), "noleg": 0, "dr_runs": 0, "dw_runs": 0, "dw_runs_through_placeDetailed": 0,
            "swap_pass_ops": 0, "swap_pass_ops_changing": 0, "swap_pass_ops_changing_row": 0, "reorder_pass_ops": 0, "reorder_pass_ops_changing": 0,
            "callback_states": 0, "whole_runs_changing": 0, "whole_runs_with_reordering": 0, "states_compared": 0, "nontrivial": set(),
            "runs_with_side_by_side_rows": 0, "runs_with_empty_row": 0, "runs_with_one_cell_row": 0,
-           "mismatch": [], "driver_fail": [], "throws": [], "check_fail": [], "crash": [], "samples": []}
+           "huge_cutoff_cases": 0, "value_increases": [], "overflow_throws": [], "mismatch": [], "driver_fail": [], "throws": [], "check_fail": [], "crash": [], "samples": []}
     pinp, pmap = [], []
     for i, (l, out) in enumerate(zip(lines, impl)):
         o = out.strip()
@@ -68,19 +87,20 @@ def run_closed(ctx, count, seed, modes=(0, 16)):
             continue
         segs = [x.strip() for x in o.split(" / ")]
         ctoks, ntoks, rest = split_case(l)
+        res["huge_cutoff_cases"] += any(int(t) >= HUGE for t in rest)
         if l.startswith("DR"):
             if not segs[0].startswith("INIT"):
                 res["crash"].append((l, o[-300:], "no outcome: " + o[:80]))
                 continue
             pl0 = [int(x) for x in segs[0].split(";")[1].split()]
-            pinp.append("RN " + " ".join(lc.with_placement(ctoks, pl0)) + " " + " ".join(do.nets_for_hp(ntoks)) + " " + " ".join(rest))
+            pinp.append("RN " + " ".join(lc.with_placement(ctoks, pl0)) + " " + " ".join(do.nets_for_hp(ntoks)) + " " + " ".join([rest[0]] + [t if k % 3 == 0 else cap(t) for k, t in enumerate(rest[1:])]))
             pmap.append((i, "DR", segs, ctoks, rest))
         else:
             if not segs[0].startswith("LEG"):
                 res["crash"].append((l, o[-300:], "no outcome: " + o[:80]))
                 continue
             pl0 = [int(x) for x in segs[0].split(";")[1].split()]
-            pinp.append("RW " + " ".join(lc.with_placement(ctoks, pl0)) + " " + " ".join(do.nets_for_hp(ntoks)) + " " + " ".join(rest[:7]))
+            pinp.append("RW " + " ".join(lc.with_placement(ctoks, pl0)) + " " + " ".join(do.nets_for_hp(ntoks)) + " " + " ".join(cap(t) for t in rest[:7]))
             pmap.append((i, "DW" + rest[7], segs[1:], ctoks, rest))
     pout, _, _ = common.run_both([driver], None, pinp, chunk=100, timeout=900)
     for (i, kind, segs, ctoks, rest), o in zip(pmap, pout):
@@ -108,13 +128,18 @@ def run_closed(ctx, count, seed, modes=(0, 16)):
             res["runs_with_side_by_side_rows"] += len(set(ys)) < len(ys)
         except (ValueError, IndexError):
             pass
-        prev_pl = None; bad = False; changed_any = False
+        prev_pl = None; prev_val = None; bad = False; changed_any = False
         if len(segs) != len(msegs) and not any(s.startswith("THROW") for s in segs) and not any(s.startswith("ERR") for s in msegs):
             res["mismatch"].append((l, "%d segments" % len(segs), "%d segments" % len(msegs), "number of exposed states"))
             continue
         for k, (a, m) in enumerate(zip(segs, msegs)):
             if a.startswith("THROW") or m.startswith("ERR") or m.startswith("BADPARAMS"):
-                if a.startswith("THROW") and (m.startswith("ERR EThrow") or m.startswith("BADPARAMS") or m.startswith("ERR EUndefined")):
+                huge_nb = (kind == "DR" and k >= 1 and rest[1 + 3 * (k - 1)] == "3" and int(rest[3 + 3 * (k - 1)]) >= HUGE) or \
+                          (kind != "DR" and int(rest[2]) >= HUGE)
+                if a.startswith("THROW cannot create std::vector larger than max_size()") and huge_nb and not m.startswith(("ERR", "BADPARAMS")):
+                    # int overflow of `i + nbNeighbours + 1` in runSwapsOneRow (finding: fixed by commit "fix: candidate window end ...")
+                    res["overflow_throws"].append((l, a[:200], m[:120], "segment %d: the C++ throws for a neighbour cut-off near INT_MAX accepted by the parameter check" % k))
+                elif a.startswith("THROW") and (m.startswith("ERR EThrow") or m.startswith("BADPARAMS") or m.startswith("ERR EUndefined")):
                     res["throws"].append((l, a[:200], m[:200], "segment %d: both sides stop" % k))
                 else:
                     res["mismatch"].append((l, a[:300], m[:300], "segment %d: one side stops / throws / runs out of fuel" % k))
@@ -127,6 +152,16 @@ def run_closed(ctx, count, seed, modes=(0, 16)):
             else:
                 got, want = (ta, va, pa, ra), (tm, vm, pm, rm)
             res["states_compared"] += 1
+            # statement-level oracle on the C++ output alone (C05): the optimised value (x + y model values) never increases from one
+            # exposed state to the next, whatever the model says
+            if kind != "DW1":
+                try:
+                    tot = sum(int(x) for x in va.split())
+                    if prev_val is not None and tot > prev_val:
+                        res["value_increases"].append((l, "value %d after %d" % (tot, prev_val), "", "segment %d (%s): the value DetailedPlacer optimises rose across a pass" % (k, ta)))
+                    prev_val = tot
+                except ValueError:
+                    pass
             if got != want:
                 res["mismatch"].append((l, " | ".join(got)[:400], " | ".join(want)[:400], "segment %d (%s)" % (k, ta)))
                 bad = True
@@ -148,6 +183,8 @@ def run_closed(ctx, count, seed, modes=(0, 16)):
             prev_pl = pa
         if bad:
             continue
+        if l == EXAMPLE + "0" and [seg_fields(x)[1] for x in segs] != EXAMPLE_VALUES:
+            res["mismatch"].append((l, " / ".join(seg_fields(x)[1] for x in segs), " / ".join(EXAMPLE_VALUES), "the values of Example c02_run_nonvacuous"))
         if changed_any:
             res["nontrivial"].add(l)
             if len(res["samples"]) < 5:
@@ -157,9 +194,34 @@ def run_closed(ctx, count, seed, modes=(0, 16)):
         if kind != "DR" and int(rest[6]) >= 2 and int(rest[0]) >= 1:
             res["whole_runs_with_reordering"] += 1
     res["distinct_nontrivial"] = len(res.pop("nontrivial"))
-    _cache[key] = res
+    if key is not None:
+        _cache[key] = res
     return res
 
+
+
+def report(ctx, res, prop):
+    """turns the result of run_closed into violations of `prop` (C02 or C05): concrete inputs first, then the tie"""
+    found = False
+    if prop == "C05":
+        for x in res["value_increases"][:2]:
+            found = True
+            ctx.violation("detailed placement worsens the value it optimises across a whole pass driven on the real DetailedPlacer: " + x[1],
+                          {"case": x[0], "what": x[3], "format": "DR/DW lines of harness/drun.cpp", "how": "./check C05 --replay <this file>"})
+    if prop == "C02":
+        for x in (res["overflow_throws"] + [y for y in res["crash"]])[:2]:
+            found = True
+            ctx.violation("placeDetailed / a pass of DetailedPlacer fails on a circuit that legalization accepts, with parameters the parameter "
+                          "check accepts: " + str(x[1])[:200],
+                          {"case": x[0], "what": x[3] if len(x) > 3 else x[2], "format": "DR/DW lines of harness/drun.cpp", "how": "./check C02 --replay <this file>"})
+    bad = res["mismatch"] + res["driver_fail"] + res["check_fail"] + (res["crash"] if prop != "C02" else [])
+    if bad and not found:
+        x = bad[0]
+        ctx.violation("correspondence DetailedRun.v (closed model of DetailedPlacer::run, runSwaps, runReordering) <-> place_detailed.cpp broken "
+                      "(%d of %d cases differ); no input violating %s found" % (len(bad), res["cases"], prop),
+                      {"broken": "correspondence of coq/DetailedRun.v (theorems of Properties_C02_run.v / Properties_C05_run.v)",
+                       "first_difference": {"case": x[0], "implementation": str(x[1])[:600], "model": str(x[2])[:600], "where": str(x[3])[:200] if len(x) > 3 else ""}},
+                      found_input=False)
 
 def summary(res):
     return {k: (len(v) if isinstance(v, list) else v) for k, v in res.items() if k != "samples"}
@@ -170,6 +232,8 @@ if __name__ == "__main__":
     count = int(sys.argv[2]) if len(sys.argv) > 2 else 600
     r = run_closed(None, count, seed)
     print(summary(r))
+    for x in r["overflow_throws"][:2]:
+        print("VIOLATION of C02 (placeDetailed fails on accepted parameters):", " | ".join(str(y)[:300] for y in x[1:]), "|", x[0][:900])
     for x in (r["mismatch"] + r["driver_fail"] + r["crash"] + r["check_fail"])[:4]:
         print("FAIL (closed model of DetailedPlacer::run differs from the C++):", " | ".join(str(y)[:600] for y in x[1:]), "|", x[0][:900])
-    sys.exit(1 if r["mismatch"] or r["driver_fail"] or r["crash"] or r["check_fail"] else 0)
+    sys.exit(1 if r["mismatch"] or r["driver_fail"] or r["crash"] or r["check_fail"] or r["overflow_throws"] else 0)
